@@ -185,13 +185,16 @@ def collect_prints(text, tag):
     out = []
     lines = text.splitlines()
     i = 0
-    start = '<<"%s"' % tag
+    starts = ('<<"%s"' % tag, '<< "%s"' % tag)
     while i < len(lines):
-        if lines[i].startswith(start):
+        if lines[i].startswith(starts):
             buf = lines[i]
             while buf.count("<<") > buf.count(">>") and i + 1 < len(lines):
                 i += 1
                 buf += " " + lines[i].strip()
+            buf = re.sub(r"<<\s+", "<<", buf)
+            buf = re.sub(r"\s+>>", ">>", buf)
+            buf = re.sub(r"\s+", " ", buf)
             out.append(buf)
         i += 1
     return out
